@@ -449,8 +449,21 @@ func genW(c *Ctx) {
 			}
 			w.Params = buildParams(spec, cols)
 			w.Inputs = make([][][]float64, nBlocks)
+			okBlocks := true
 			for b := range w.Inputs {
 				w.Inputs[b] = g.Inputs(c.R, T, cols[b%nSets])
+				if b == 0 {
+					T = len(w.Inputs[0][0]) // a generator may shorten the series (malformed stream): all blocks must agree
+				}
+				for tries := 0; len(w.Inputs[b][0]) != T && tries < 30; tries++ {
+					w.Inputs[b] = g.Inputs(c.R, T, cols[b%nSets])
+				}
+				if len(w.Inputs[b][0]) != T {
+					okBlocks = false
+				}
+			}
+			if !okBlocks {
+				continue
 			}
 			nO := len(sim.Catalog[m]().Description().Outputs)
 			if g.States == nil || c.R.Chance(0.4) {
